@@ -2,7 +2,8 @@
    Statements about Spec.v, closed by lemmas of InvSlash.v. *)
 From Rigo Require Import Base.
 From stdpp Require Import gmap sorting.
-From Rigo Require Import Spec SpecProps InvReward InvSlash.
+From Rigo Require InvFee.
+From Rigo Require Import Spec SpecProps InvReward InvSlash InvPanic InvSupply InvReach InvSlashClosed.
 Local Open Scope Z_scope.
 
 (* one evidence item against a delegatee: every stake with floor(power*ratio/100) >= 1 keeps
@@ -105,3 +106,139 @@ Theorem C14_dup_hash_refuted :
     d_stakes (slash_all d ratio).1 = [dup_small] /\ slash_kept ratio (d_stakes d) = [with_power 900 dup_big].
 Proof. exact slash_dup_hash_refuted. Qed.
 Print Assumptions C14_dup_hash_refuted.
+
+(* ================================================================== whole runs, hypotheses on the inputs only
+   (InvSlashClosed.v): the hypotheses of the per-step theorems above — distinct stake hashes inside a
+   delegatee, slash ratio in 0..100, increasing miss marks, window parameter, voter powers in range —
+   are discharged from reachability; what is assumed is a well-formed genesis document, fresh staking
+   hashes, parameter documents in range and a BeginBlock that carries the next height *)
+(* For each piece of evidence in a block, every stake bonded to the named validator loses the
+   governance slash percentage of its power, rounded down; a stake too small to be reduced is
+   forfeited; repeated evidence cuts repeatedly; unknown addresses change nothing.
+   In every state [s] reachable by a list [pre], for the BeginBlock that continues the list:
+   - the slash percentage in force is between 0 and 100;
+   - after the punishment phase (the ledgers the vote loop starts from) the entry of EVERY address [a]
+     is its old entry with the stake list passed [times a evi] times through [slash_kept], self and
+     total power recomputed as sums over the remaining stakes, miss marks untouched;
+   - the same is true of the state BeginBlock leaves behind for every delegatee that is not
+     reported as a non-signer (those are the subject of C14_run_jail_iff), whatever BeginBlock answers;
+   - no delegatee is created. *)
+Theorem C14_run_slash_exact : forall g pre hd,
+  genesis_ok g → hashes_fresh pre → opts_ok pre → blocks InvPanic.Idle 0 (pre ++ [SBegin hd]) →
+  let s := srun (init_chain g) pre in
+  let s' := sstep s (SBegin hd) in
+  let ratio := g_slashRatio (gparams s) in
+  let evi := h_evidence hd in
+  0 ≤ ratio ≤ 100 ∧
+  (∀ a, dels (punished s hd) !! a = slashed_n ratio (times a evi) a <$> dels (work s) !! a) ∧
+  (∀ a d, dels (work s) !! a = Some d → a ∉ nonsigners (h_votes hd) →
+     dels (work s') !! a = Some (slashed_n ratio (times a evi) a d)) ∧
+  (∀ a, dels (work s) !! a = None → dels (work s') !! a = None).
+Proof. exact InvSlashClosed.C14_run_slash_exact. Qed.
+Print Assumptions C14_run_slash_exact.
+
+(* one evidence item, spelled out stake by stake: a stake of the named validator with
+   floor(power*ratio/100) >= 1 keeps its owner, target, hash, start and refund height and has
+   power - floor(power*ratio/100); the others are gone; the order is kept *)
+Theorem C14_run_slash_once : forall g pre hd a d,
+  genesis_ok g → hashes_fresh pre → opts_ok pre → blocks InvPanic.Idle 0 (pre ++ [SBegin hd]) →
+  let s := srun (init_chain g) pre in
+  let ratio := g_slashRatio (gparams s) in
+  dels (work s) !! a = Some d → times a (h_evidence hd) = 1%nat →
+  ∃ d', dels (punished s hd) !! a = Some d' ∧ d_addr d' = a ∧ d_marks d' = d_marks d ∧
+        d_stakes d' = slash_kept ratio (d_stakes d) ∧
+        d_total d' = sum_power (d_stakes d') ∧ d_self d' = sum_power_of a (d_stakes d') ∧
+        (∀ st', st' ∈ d_stakes d' ↔
+           ∃ st, st ∈ d_stakes d ∧ 1 ≤ s_power st * ratio / 100 ∧
+                 st' = with_power (s_power st - s_power st * ratio / 100) st) ∧
+        (∀ st, st ∈ d_stakes d → s_power st * ratio / 100 < 1 → s_hash st ∉ s_hash <$> d_stakes d') ∧
+        sublist (s_hash <$> d_stakes d') (s_hash <$> d_stakes d).
+Proof. exact InvSlashClosed.C14_run_slash_once. Qed.
+Print Assumptions C14_run_slash_once.
+
+(* ... while no other validator, stake or account changes.  In every reachable state, for the
+   BeginBlock that continues the list, whatever it answers:
+   - a delegatee that is neither named by the evidence nor reported as a non-signer keeps its entry
+     (and no entry appears for an address that had none);
+   - a delegatee that is not named keeps address, self power, total power and stake list as long as it
+     has an entry: only its miss marks may differ;
+   - accounts, frozen proposals, the parameter ledger, the committed versions, the active and the
+     pending parameters, the validator set and the last height are unchanged;
+   - an open proposal in which no named address is a voter is unchanged, and no proposal appears;
+   - the unbonding ledger is unchanged when no vote is marked "did not sign" (otherwise see C14_run_jail_iff);
+   - the reward ledger is unchanged when no vote is marked "signed" (otherwise see C13). *)
+Theorem C14_run_others_untouched : forall g pre hd,
+  genesis_ok g → hashes_fresh pre → opts_ok pre → blocks InvPanic.Idle 0 (pre ++ [SBegin hd]) →
+  let s := srun (init_chain g) pre in
+  let s' := sstep s (SBegin hd) in
+  let evi := h_evidence hd in
+  (∀ a, a ∉ evi → a ∉ nonsigners (h_votes hd) → dels (work s') !! a = dels (work s) !! a) ∧
+  (∀ a d d', a ∉ evi → dels (work s) !! a = Some d → dels (work s') !! a = Some d' → same_but_marks d d') ∧
+  accts (work s') = accts (work s) ∧ fprops (work s') = fprops (work s) ∧ lparams (work s') = lparams (work s) ∧
+  committed s' = committed s ∧ gparams s' = gparams s ∧ newparams s' = newparams s ∧
+  lastvals s' = lastvals s ∧ last_height s' = last_height s ∧
+  (∀ k p, props (work s) !! k = Some p → (∀ a, a ∈ evi → p_voters p !! a = None) → props (work s') !! k = Some p) ∧
+  (∀ k, props (work s) !! k = None → props (work s') !! k = None) ∧
+  (nonsigners (h_votes hd) = [] → frozen (work s') = frozen (work s)) ∧
+  (Forall (λ v : addr * Z * bool, v.2 = false) (h_votes hd) → rewards (work s') = rewards (work s)).
+Proof. exact InvSlashClosed.C14_run_others_untouched. Qed.
+Print Assumptions C14_run_others_untouched.
+
+(* the same with the answer Ok derived: votes are carried only from height 2 on *)
+Theorem C14_run_jail_iff : forall g pre hd,
+  genesis_ok g → hashes_fresh pre → opts_ok pre → blocks InvPanic.Idle 0 (pre ++ [SBegin hd]) →
+  NoDup (nonsigners (h_votes hd)) → (h_votes hd = [] ∨ 2 ≤ h_height hd) →
+  (∃ iss, (begin_block (srun (init_chain g) pre) hd).2 = Ok iss) ∧
+  jailing_exact (srun (init_chain g) pre) hd.
+Proof. exact InvSlashClosed.C14_run_jail_iff. Qed.
+Print Assumptions C14_run_jail_iff.
+
+(* ... and the validator's voting weight in open proposals shrinks by the same percentage.
+   In every state [s] reachable by a list [pre], for the BeginBlock that continues the list
+   ([voters_punished], written out above):
+   - every recorded voter of every open proposal has a power in [0, 2^63) and the slash percentage is in
+     0..100: the hypotheses of C14_voter hold, and keep holding item after item;
+   - every open proposal [p] is replaced by [p] punished for each evidence item in order; no proposal
+     appears or disappears;
+   - item by item: with [q] the proposal as the items before left it, an item naming a recorded voter
+     [v] of [q] turns [q] into [punished_prop q a v (floor(power*ratio/100))] (the voter's weight, the
+     option it had chosen and the total lose exactly that amount, the majority threshold is recomputed,
+     the voter is removed when nothing is left); an item naming nobody recorded leaves [q] as it is;
+   - overall a voter named n times has its weight cut n times ([punish_voter] iterated), voters not named
+     keep their record; hash, voting window, apply height, option type, number of options and major
+     option of the proposal are unchanged. *)
+Theorem C14_run_voters : forall g pre hd,
+  genesis_ok g → hashes_fresh pre → opts_ok pre → blocks InvPanic.Idle 0 (pre ++ [SBegin hd]) →
+  voters_punished (srun (init_chain g) pre) hd.
+Proof. exact InvSlashClosed.C14_run_voters. Qed.
+Print Assumptions C14_run_voters.
+
+(* a voter named by exactly one evidence item: floor(power*ratio/100) less, removed at <= 0 *)
+Theorem C14_run_voter_once : forall g pre hd k p a v,
+  genesis_ok g → hashes_fresh pre → opts_ok pre → blocks InvPanic.Idle 0 (pre ++ [SBegin hd]) →
+  let s := srun (init_chain g) pre in
+  let ratio := g_slashRatio (gparams s) in
+  props (work s) !! k = Some p → p_voters p !! a = Some v → times a (h_evidence hd) = 1%nat →
+  0 ≤ v_power v < two63 ∧ 0 ≤ ratio ≤ 100 ∧
+  ∃ p', props (work (sstep s (SBegin hd))) !! k = Some p' ∧
+        p_voters p' !! a =
+          if v_power v - v_power v * ratio / 100 <=? 0 then None
+          else Some {| v_power := v_power v - v_power v * ratio / 100; v_choice := v_choice v |}.
+Proof. exact InvSlashClosed.C14_run_voter_once. Qed.
+Print Assumptions C14_run_voter_once.
+
+(* "leaves the validator set" is not immediate: the eligible set of a block is built from the
+   COMMITTED tree before stakes are punished and non-signers jailed, so the validator jailed (and
+   slashed) in BeginBlock of block 4 is still announced, with its old power 120, by EndBlock of
+   block 4; it is dropped by EndBlock of block 5 *)
+Theorem C14_jailed_same_block_set_refuted : 
+  ∃ g pre hd,
+    genesis_ok g ∧ InvPanic.bracketed InvPanic.Idle 0 (pre ++ [SBegin hd]) ∧ hashes_fresh (pre ++ [SBegin hd]) ∧
+    txs_ok (pre ++ [SBegin hd]) ∧ supply (work (init_chain g)) + requested (pre ++ [SBegin hd]) < supply_bound ∧
+    let s' := srun (init_chain g) (pre ++ [SBegin hd]) in
+    dels (work s') !! 11%N = None ∧
+    lastvals (srun s' [SEnd]) = [(11%N, 120)] ∧
+    (end_block s').2 = Ok [] ∧
+    lastvals (srun s' [SEnd; SCommit; SBegin (InvFee.demo_hdr 5 (Some 11%N)); SEnd]) = [].
+Proof. exact InvSlashClosed.C14_jailed_same_block_set_refuted. Qed.
+Print Assumptions C14_jailed_same_block_set_refuted.
